@@ -197,7 +197,7 @@ class Ctx:
         self.thorough = self.tier == "thorough"
 
     # ---- running Rust monitors ----------------------------------------------------------
-    def mon(self, name, flavour, profile, args, timeout=3600, must_observe=True, binary=None, env_extra=None, wrapper=None):
+    def mon(self, name, flavour, profile, args, timeout=3600, must_observe=True, binary=None, env_extra=None, wrapper=None, adopt=None):
         """Run one `mon` step and fold its report into the context."""
         exe = binary or cargo_build(flavour, profile)
         fd, outp = tempfile.mkstemp(prefix="verif-rep-", suffix=".json")
@@ -237,7 +237,7 @@ class Ctx:
                 rep = json.load(open(outp))
             except Exception as e:
                 raise HarnessError("%s: unreadable report: %s" % (name, e))
-            self.fold(name, flavour, profile, rep, must_observe)
+            self.fold(name, flavour, profile, rep, must_observe, adopt=adopt)
             step["evaluations"] = rep["evaluations"]
             step["verdict"] = "violated" if rep["violations"] else "held"
             return rep
@@ -257,7 +257,10 @@ class Ctx:
                                              list(args) + ["--threads", "1", "--shard", str(i), "--shards", str(shards)], **kw))
                        for i in range(shards)], workers=shards)
 
-    def fold(self, name, flavour, profile, rep, must_observe=True):
+    def fold(self, name, flavour, profile, rep, must_observe=True, adopt=None):
+        """adopt: None, or a predicate over signatures of *other* properties' monitors whose
+        violations count for this property (e.g. C04 re-runs the C01/C02/C03/C09 monitors in every
+        configuration cell: any disagreement with the model there is a C04 violation)."""
         with self.lock:
             self.evaluations += rep["evaluations"]
             self.distinct += rep["distinct_nontrivial"]
@@ -277,9 +280,14 @@ class Ctx:
                 raise HarnessError("%s: %d harness panics (monitor bug): %s" % (name, rep["counters"]["harness_panics"], rep.get("inconclusive", [])[:3]))
             for v in rep["violations"]:
                 if not _own(self.pid, v["sig"]):
-                    other = self.observations.setdefault("signatures_of_other_properties_seen", {})
-                    other[v["sig"]] = other.get(v["sig"], 0) + 1
-                    continue
+                    if adopt is not None and adopt(v["sig"]):
+                        v = dict(v)
+                        v["sig"] = "%s/via/%s" % (self.pid, v["sig"])
+                        v["detail"] = "[%s] %s" % (name, v["detail"])
+                    else:
+                        other = self.observations.setdefault("signatures_of_other_properties_seen", {})
+                        other[v["sig"]] = other.get(v["sig"], 0) + 1
+                        continue
                 self.violations.append({"sig": v["sig"], "detail": v["detail"],
                                         "replay": {"kind": "mon", "flavour": flavour, "profile": profile, "args": v["replay_args"], "seed": self.seed, "tier": self.tier}})
             if must_observe and rep["evaluations"] == 0:
@@ -655,13 +663,16 @@ def miri_run(ctx, name, args, shards=16, flavour="pure", miriflags="", timeout=1
             msg = re.search(r"error: (.*)", out)
             head = msg.group(1)[:300] if msg else kind
             harness_frames = re.findall(r"at (mon/src/[\w./]+:\d+|monlib/src/[\w./]+:\d+)", out)
-            first = re.search(r"-->\s+(\S+):(\d+)", out)
+            epos = max(out.find("error: Undefined Behavior"), out.find("error: Data race"), out.find("error: unsupported operation"))
+            etext = out[epos:] if epos >= 0 else out
+            first = re.search(r"-->\s+(\S+):(\d+)", etext)
             where = first.group(1) if first else ""
+            frames = re.findall(r"at (/repo/src/[\w./]+:\d+)", etext)
             if kind == "unsupported":
                 ctx.note_inconclusive("%s shard %d: Miri unsupported operation: %s" % (name, i, head))
                 step["verdict"] = "inconclusive"
             elif where.startswith("/repo/") or (frames and not where.startswith("mon/") and not where.startswith("monlib/")):
-                fn = re.search(r"0: ([\w:<>]+)", out)
+                fn = re.search(r"0: ([\w:<>]+)", etext)
                 sig = "%s/miri/%s/%s" % (owner, kind, (fn.group(1) if fn else where)[:80])
                 ctx.add_violation(sig, "[%s] Miri: %s at %s; frames under /repo: %s" % (name, head, where, frames[:4]),
                                   {"kind": "miri", "args": list(args) + ["--shard", str(i), "--shards", str(shards)], "flavour": flavour, "miriflags": miriflags,
